@@ -280,7 +280,7 @@ CHECKS["C12"] = {
     "text": "Each mutant is loaded twice under different names in the sanitizer build (UBSan reports captured per input, ASan fatal, 20 s no-progress watchdog); a failed load must leave UTC; on a loaded zone the totality panel (extreme lookups both ways, transition chains, format) must run clean and give the same answers both times; per-case outcome hashes must agree with two uninstrumented clang builds that pre-fill automatic variables differently.",
     "level_note": "Trusted base: ASan/UBSan runtimes, the watchdog, the reference TZif reader used only to describe inputs (facts for known-finding predicates). Bounds: one deviation per input (pairs only for the listed interacting operators); no claim for inputs that need three simultaneous deviations.",
     "assumptions": ["enough memory for the data length the header declares (inputs declaring more than the cap are skipped)"],
-    "vacuity": c12_vac, "budget": {"quick": 400, "thorough": 3000},
+    "vacuity": c12_vac, "budget": {"quick": 400, "thorough": 5400},
 }
 
 TEXT_NOTE = ("Trusted base: ref_text.h (left-to-right tokenizer/renderer/matcher written from the documentation in time_zone.h), ref_civil.h, glibc strftime/strptime "
